@@ -23,6 +23,12 @@ impl Out {
     pub fn finish(mut self) {
         self.w.flush().unwrap();
     }
+    /// marks the start of one definition's driver and makes everything recorded so far durable: if the process dies inside
+    /// that driver (stack overflow, abort), the harness knows which definition was running
+    pub fn begin(&mut self, def: u32) {
+        self.w.write_all(format!("{{\"op\":\"begin\",\"def\":{}}}\n", def).as_bytes()).unwrap();
+        self.w.flush().unwrap();
+    }
 }
 
 /// a string as a JSON array of code points
